@@ -278,9 +278,9 @@ func c12R1R3(p *core.Program, r *core.Report, np *core.Func) {
 	}
 
 	// R3: keys
-	lineFn := lineClosure(np)
+	lineFn := keyFunc(p, np)
 	if lineFn == nil {
-		r.Anchor("R3", "fileLine-building closure in newPkg")
+		r.Anchor("R3", "function building an index key (position, line delta) in pkg/types")
 		return
 	}
 	// shape of the fileLine closure: fileLine{position.Filename, position.Line + delta}
@@ -334,7 +334,8 @@ func c12R1R3(p *core.Program, r *core.Report, np *core.Func) {
 				rhs = as.Rhs[0]
 			}
 			c, ok := ast.Unparen(rhs).(*ast.CallExpr)
-			if rhs == nil || !ok || core.VarOf(info, c.Fun) != lineVar || len(c.Args) != 2 {
+			isKeyCall := ok && ((lineVar != nil && core.VarOf(info, c.Fun) == lineVar) || (lineFn.Obj() != nil && core.CalleeFunc(info, c) == lineFn.Obj()))
+			if rhs == nil || !isKeyCall || len(c.Args) != 2 {
 				good = false
 				continue
 			}
@@ -541,11 +542,52 @@ func funcValueEscapes(p *core.Program, f *core.Func, wv *types.Var) []ast.Node {
 }
 
 // lineClosure: the literal in newPkg returning the fileLine key type.
-func lineClosure(np *core.Func) *core.Func {
+func lineClosure(np *core.Func) *core.Func { return keyFunc(nil, np) }
+
+// commentKeyType: the key type of the comment indexes (maps whose element is *ast.CommentGroup).
+func commentKeyType(np *core.Func) types.Type {
+	sc := np.Pkg.Types.Scope()
+	for _, n := range sc.Names() {
+		tn, ok := sc.Lookup(n).(*types.TypeName)
+		if !ok {
+			continue
+		}
+		st, ok := tn.Type().Underlying().(*types.Struct)
+		if !ok {
+			continue
+		}
+		for i := 0; i < st.NumFields(); i++ {
+			if isCommentGroupMapField(st.Field(i)) {
+				return st.Field(i).Type().Underlying().(*types.Map).Key()
+			}
+		}
+	}
+	return nil
+}
+
+// keyFunc: the function that builds an index key from a position and a line delta: a literal in
+// the constructor or a declared function/method of the package whose single result is the key type.
+func keyFunc(p *core.Program, np *core.Func) *core.Func {
+	kt := commentKeyType(np)
+	if kt == nil {
+		return nil
+	}
+	isKeyFn := func(ft *ast.FuncType, info *types.Info) bool {
+		if ft.Results == nil || len(ft.Results.List) != 1 || len(ft.Results.List[0].Names) > 1 {
+			return false
+		}
+		t := info.TypeOf(ft.Results.List[0].Type)
+		return t != nil && types.Identical(t, kt)
+	}
 	for _, l := range np.Lits {
-		if l.Type.Results != nil && len(l.Type.Results.List) == 1 {
-			if t := np.Info().TypeOf(l.Type.Results.List[0].Type); t != nil && core.NamedTypeName(t) == core.G("pkg/types.fileLine") {
-				return l
+		if isKeyFn(l.Type, np.Info()) {
+			return l
+		}
+	}
+	if p != nil {
+		for _, f := range p.Funcs() {
+			if f.Decl != nil && f.Pkg == np.Pkg && isKeyFn(f.Decl.Type, f.Info()) {
+				return f
 			}
 		}
 	}
@@ -767,6 +809,20 @@ func c12R2(p *core.Program, r *core.Report) {
 		}
 		return true
 	})
+	if !okKey {
+		// through the key-building function (whose shape R3 checks): keyFn(<pos parameter>, <delta parameter>)
+		if np := p.FuncByName("pkg/types", "newPkg"); np != nil {
+			if kf := keyFunc(p, np); kf != nil && kf.Obj() != nil {
+				for _, c := range core.Calls(f.Body, true) {
+					if core.CalleeFunc(info, c) == kf.Obj() && len(c.Args) == 2 && core.VarOf(info, c.Args[1]) == delta {
+						if pv := core.VarOf(info, c.Args[0]); pv != nil && isParamOf(f, pv) {
+							okKey = true
+						}
+					}
+				}
+			}
+		}
+	}
 	r.Check(okKey, rule, f, "lookup key is position.Line + delta", f.Node().Pos(), "fileLine{Filename, Line + delta}", "the lookup key is not Line + delta")
 }
 
